@@ -73,9 +73,11 @@ def base : Key → Key
 
 /-! ### values -/
 
-/-- the list held so far (`adapt_typehints`, sequence branch with `append`: `None` ⇒ `[]`) -/
+/-- the list held so far (`adapt_typehints`, sequence branch with `append`): `None` ⇒ `[]`; a previous SCALAR (a key typed
+    `Union[int, List[int]]`; 0 and "" included) is promoted to the one-element list; anything else that is no list ⇒ `[]` -/
 def listOf : Option V → List V
   | some (.lst xs) => xs
+  | some (.atom a) => [.atom a]
   | _ => []
 def toList : V → List V
   | .lst xs => xs
@@ -86,6 +88,12 @@ def appendVal (prev : Option V) (v : V) : V := .lst (listOf prev ++ toList v)
 def dictOf : Option V → KV
   | some (.dct d) => d
   | _ => []
+/-- `if not isinstance(cfg.get(dest), list): cfg[dest] = []`, then `cfg[dest].append(cfg_path)`: the bookkeeping list of the config
+    argument; NOTHING is promoted here -/
+def noteList : Option V → List V
+  | some (.lst xs) => xs
+  | _ => []
+def noteVal (prev : Option V) : V := .lst (noteList prev ++ [.none])
 def itemVal (prev : Option V) (i : SKey) (v : V) : V := .dct (insert i v (dictOf prev))
 
 /-! ### leaves of a namespace (`Namespace.items()`: depth first, storage order, dotted keys as segment lists) -/
@@ -167,9 +175,10 @@ deriving Inhabited
 
 /-- `ActionConfigFile.apply_config`: parse without defaults/env, merge into the namespace being built, note the path
     (`if not isinstance(cfg.get(dest), list): cfg[dest] = []`, then `cfg[dest].append(cfg_path)`) -/
-def applyConfig (p : Parser) (dest : Key) (t : KV) (c : KV) : KV :=
-  let m := mergeConfig p (expand p t) c
-  setK dest (.lst (listOf (getK dest m) ++ [.none])) m
+def applyConfigE (p : Parser) (dest : Key) (e : KV) (c : KV) : KV :=
+  let m := mergeConfig p e c
+  setK dest (noteVal (getK dest m)) m
+def applyConfig (p : Parser) (dest : Key) (t : KV) (c : KV) : KV := applyConfigE p dest (expand p t) c
 
 /-- action defaults (first part of `get_defaults`) -/
 def defaults (p : Parser) : KV := foldSet (p.args.map (fun a => (a.dest, a.default))) []
@@ -333,17 +342,20 @@ inductive Assign where
   | set (k : Key) (v : V)
   | append (k : Key) (v : V)
   | item (k : Key) (i : SKey) (v : V)
+  | note (k : Key)                       -- a config was given through the config argument `k`: its own list gets one more entry
 deriving Inhabited
 
 def Assign.key : Assign → Key
   | .set k _ => k
   | .append k _ => k
   | .item k _ _ => k
+  | .note k => k
 
 def refStep (c : KV) : Assign → KV
   | .set k v => setK k v c
   | .append k v => setK k (appendVal (getK k c) v) c
   | .item k i v => setK k (itemVal (getK k c) i v) c
+  | .note k => setK k (noteVal (getK k c)) c
 
 def refFold (as : List Assign) (c : KV) : KV := as.foldl refStep c
 
@@ -356,7 +368,7 @@ def asgTree (t : KV) : List Assign :=
 
 /-- a config given through the config argument: its content, then the note in the config argument's own list -/
 def asgConfig (p : Parser) (dest : Key) (t : KV) : List Assign :=
-  asgTree (expand p t) ++ [.append dest (.lst [.none])]
+  asgTree (expand p t) ++ [.note dest]
 
 def asgDefaults (p : Parser) : List Assign := p.args.map (fun a => .set a.dest a.default)
 
@@ -407,6 +419,7 @@ def stepKey (k : Key) (cur : Option V) : Assign → Option V
   | .set k' v => if k' = k then some v else cur
   | .append k' v => if k' = k then some (appendVal cur v) else cur
   | .item k' i v => if k' = k then some (itemVal cur i v) else cur
+  | .note k' => if k' = k then some (noteVal cur) else cur
 
 /-- `valueAfter h k` starting from `cur` -/
 def evalKey (k : Key) (as : List Assign) (cur : Option V) : Option V := as.foldl (stepKey k) cur
